@@ -96,7 +96,7 @@ def _string_literal(draw, width, kind):
 
 
 WIDE_WIDTHS = [255, 256, 1024, 4096, 8192, 32768, 65536, 70001]
-BYTE_TARGETS = [4096, 8192, 65536, 2 ** 20, 2 ** 21, 3 * 2 ** 20]
+BYTE_TARGETS = [4096, 8192, 65536, 2 ** 20, 2 ** 21, 3 * 2 ** 20, 2 ** 22, 2 ** 23]
 
 
 @st.composite
